@@ -2,6 +2,8 @@ import Driver.Proto
 import Driver.Pure
 import Driver.Store
 import Ibx.Model.Rest
+import Ibx.Model.RestIds
+import Ibx.Model.ClientJoin
 /-
   mode "rest": the REST / web-UI handler model over the abstract store (contract "missing ⇒ ErrNotExist"), and the
   client-URL / router model.
@@ -14,6 +16,12 @@ import Ibx.Model.Rest
     route <GET|DELETE|PATCH|OTHER> <wire> base=<hexlist>               -> hit <RouteName> <vars> | notfound | redirect | badreq
     client <list|get|seen|source|delete|purge> <name> <id> base=<hexlist>  -> wire <hex> | clienterr
     qesc <hex> | pesc <hex>                                            -> <hex>
+    reqs <RouteName> <name> <idstring> lk=<s|d> strs=<hexlist> body= num= natt= ip=
+                                                                       -> as req; the id is the request STRING, `strs` the id
+                                                                          strings of the addressed mailbox by message number
+                                                                          (lk=s: lookup by string, lk=d: by decimal value)
+    clientv <q|j> <op> <name> <id> base=<hexlist>                      -> wire <hex>    (q: QueryEscape client, j: path.Join client)
+    routev <q|j> <op> <name> <id> base=<hexlist>                       -> as route
 -/
 namespace Driver.RestMode
 open Ibx Ibx.Spec.Store Ibx.Model Ibx.Model.Rest Ibx.Model.ClientUrl Driver
@@ -130,6 +138,30 @@ def step (s : St) (toks : List String) : St × String :=
       (s, match clientWire base op.shape name id with
           | some w => s!"wire {Bytes.toHex w}"
           | none => "clienterr")
+    | _, _, _, _ => (s, "bad-op")
+  | ["reqs", h, name, id] =>
+    match handlerOf h, Bytes.ofHex name, Bytes.ofHex id, (kv.get? "body") >>= bodyTok, (kv.get? "num") >>= numTok,
+          (kv.get? "natt") >>= String.toNat?, parseIpTable ((kv.get? "ip").getD "-"), (kv.get? "strs") >>= hexList with
+    | some h, some name, some id, some body, some num, some natt, some tbl, some strs =>
+      if (ipQueries name).all (fun q => tbl.any (·.1 == q)) then
+        let e : Env := { ip := ipFun tbl, naming := s.naming, contract := .strict }
+        let lk : RestIds.Lookup := if kv.get? "lk" == some "d" then .byDecimalValue else .byString
+        let str : Nat → Bytes := fun n => if n = 0 then [] else (strs[n - 1]?).getD []
+        let (r, st) := RestIds.handleS e lk str h s.store { name := name, id := id, body := body, num := num, natt := natt }
+        ({ s with store := st }, s!"{encStatus r.status} {encPayload r.payload}")
+      else (s, "oracle-missing")
+    | _, _, _, _, _, _, _, _ => (s, "bad-op")
+  | ["clientv", v, op, name, id] =>
+    match opTok op, Bytes.ofHex name, Bytes.ofHex id, (kv.get? "base") >>= hexList with
+    | some op, some name, some id, some base =>
+      let v : ClientJoin.NameEsc := if v == "j" then .pathJoinRaw else .queryEscape
+      (s, s!"wire {Bytes.toHex (ClientJoin.clientWireV v base op.shape name id)}")
+    | _, _, _, _ => (s, "bad-op")
+  | ["routev", v, op, name, id] =>
+    match opTok op, Bytes.ofHex name, Bytes.ofHex id, (kv.get? "base") >>= hexList with
+    | some op, some name, some id, some base =>
+      let v : ClientJoin.NameEsc := if v == "j" then .pathJoinRaw else .queryEscape
+      (s, encRoute (ClientJoin.clientRouteV v base op name id))
     | _, _, _, _ => (s, "bad-op")
   | ["qesc", b] =>
     match Bytes.ofHex b with | some b => (s, Bytes.toHex (queryEscape b)) | none => (s, "bad-op")
